@@ -112,6 +112,7 @@ pub fn profile(r: &mut Rng, selected: u32) -> Profile {
     p.core_optional = r.below(3) as u8;
     p.early_caps = *r.pick(&[0u32, 1, 2, 4, 7]);
     p.sec_optional = r.chance(1, 3);
+    p.ber_form = *r.pick(&[0u8, 0, 1, 2]);
     p.extra_blocks.clear();
     if r.chance(1, 3) {
         p.extra_blocks.push((0x0C04, (1004 + r.below(4) as u16).to_le_bytes().to_vec()));
